@@ -543,6 +543,8 @@ static text_block_line_t* edn_parse_text_block_line(edn_parser_t* parser) {
 }
 
 edn_value_t* edn_parse_text_block(edn_parser_t* parser) {
+    const char* value_start = parser->current;
+
     /* Skip opening delimiter (""") and mandatory newline character */
     parser->current += 4;
 
@@ -558,6 +560,7 @@ edn_value_t* edn_parse_text_block(edn_parser_t* parser) {
     size_t line_count = 0;
     size_t lwp = SIZE_MAX; /* Minimum indentation: Longest common Whitespace Prefix
                             * (SIZE_MAX = no line seen yet; 0 is a real indentation) */
+    bool terminated = false;
 
     while (parser->current < parser->end) {
         /* Grow line buffer if we've reached capacity (double the size) */
@@ -610,8 +613,22 @@ edn_value_t* edn_parse_text_block(edn_parser_t* parser) {
         line_count++;
 
         if (parsed->terminal) {
+            terminated = true;
             break;
         }
+    }
+
+    if (!terminated) {
+        /* Input ended (right after a newline) before the closing delimiter */
+        for (size_t j = 0; j < line_count; j++) {
+            free(lines[j]);
+        }
+        free(lines);
+        parser->error = EDN_ERROR_INVALID_STRING;
+        parser->error_message = "Unterminated text block (missing closing \"\"\")";
+        parser->error_start = value_start;
+        parser->error_end = parser->end;
+        return NULL;
     }
 
     if (lwp == SIZE_MAX) {
